@@ -57,8 +57,10 @@ def path_agreement(ka: int, kc: int, ke: int, kb: int, v: int, bottom_up: bool) 
             want.append("a.c")
         sub.d = StringField(default="d")
         want.append("a.d")
-        # reading paths before mounting must not freeze them
+        # reading paths before mounting must not freeze them (children AND grandchildren of the mounted schema)
         hold("path", item_ref_path(sub.d) == "d" and item_ref_path(sub.c) == "c", "stand-alone path")
+        if kc == 6:
+            hold("path", item_ref_path(sub.c.e) == "c.e", "stand-alone path of a grandchild")
         schema.a = sub
     elif ka == 6:
         want.append("a")
@@ -263,3 +265,40 @@ def _make(p_debug: int, p_flag: int):
 for _d in (0, 1, 2):
     for _f in (0, 1, 2):
         _make(_d, _f)
+
+
+# --------------------------------------------------------------------------- fields without a stored value
+@obligation(prop="C16", sites=("member",), budget={"quick": 60, "thorough": 120},
+            encodes=["cincoconfig.support.get_all_fields", "cincoconfig.core.Config.__contains__",
+                     "cincoconfig.core.Config.__getitem__"],
+            what="virtual and instance-method fields (at the root or in a nested schema, symbolic) are enumerated, "
+                 "resolve on the schema, are readable by dotted path and attribute, and pass the membership test "
+                 "like every other enumerated path; undeclared siblings do not")
+def valueless_fields_are_members(nested: bool, kind: int, with_plain: bool) -> bool:
+    """
+    pre: 0 <= kind <= 1
+    post: _
+    """
+    from cincoconfig import InstanceMethodField, VirtualField
+    schema = Schema()
+    owner = schema.sec if nested else schema
+    if with_plain:
+        owner.plain = IntField(default=3)
+    if kind == 0:
+        owner.v = VirtualField(lambda cfg: 42)
+    else:
+        owner.v = InstanceMethodField(lambda cfg, x=1: x + 41)
+    path = "sec.v" if nested else "v"
+    paths = [p for p, _, _ in get_all_fields(schema)]
+    hold("member", path in paths, "field without a stored value is not enumerated")
+    cfg = schema()
+    hold("member", schema[path] is owner._fields["v"] and item_ref_path(owner._fields["v"]) == path, "path does not resolve")
+    got = cfg[path]
+    direct = cfg.sec.v if nested else cfg.v
+    val = got if kind == 0 else got()
+    val2 = direct if kind == 0 else direct()
+    hold("member", val == 42 and val2 == 42, "dotted read != attribute read")
+    for p in paths:
+        hold("member", p in cfg, lambda: "enumerated path %r fails the membership test" % (p,))
+    hold("member", ("sec.w" if nested else "w") not in cfg, "membership true for an undeclared sibling")
+    return True
